@@ -398,7 +398,7 @@ def correspondence(ctx):
                       {'shard': name, 'error': e}, found_input=False)
     for i, why in sorted(fails.items()):
         c, r = kept[i]
-        text = EXPLAIN.get(why, 'the implementation\'s frames differ from the model / the Reach oracle')
+        text = '; '.join(EXPLAIN.get(w, 'the implementation\'s frames differ from the model / the Reach oracle') for w in why.split('+'))
         ctx.violation(why, f'case {c["id"]} ({c["shape"]}, {c["n_choppers"]} choppers): {why} — {text}',
                       {'rect': c['rect'], 'program': r['program'], 'items': c['items'], 'reason': why,
                        'frames': r['frames'], 'kind': 'program'})
@@ -502,7 +502,7 @@ def replay(ctx, obj):
         return 0
     case = {'id': 0, 'rect': rp['rect'], 'program': rp['program'], 'items': rp.get('items', [])}
     res = ctx.run_impl(HARNESS, {'cases': [case]})['cases'][0]
-    print('re-run on the implementation: error =', res.get('error'))
+    print('re-run on the implementation: error =', res.get('error'), res.get('harness_error', ''))
     for i, fr in enumerate(res.get('frames', [])):
         print(f' frame {i} at {fh(fr["d"])} m: {len(fr["subframes"])} subframes, is_regular = {fr["regular"]}, '
               f'subbounds -> {fr["subbounds"]["error"] if isinstance(fr["subbounds"], dict) else "ok"}')
